@@ -37,7 +37,7 @@ for name,(file,old,new,desc) in m.MUTANTS.items():
                 out+=sh(f"{hb} replay {cdir}/{fn}", env=env).stdout
         g=subprocess.run([hb,"gen",gen,"quick","20260926"],stdout=subprocess.PIPE,stderr=subprocess.PIPE,text=True,env=env)
         out+=g.stdout
-        open(f"/tmp/vw/fontinfo/scratch/mut/{name}.trace","w").write(out)
+        open(f"/tmp/{name}.trace","w").write(out)
         d=subprocess.run([f"{VW}/lean/.lake/build/bin/driver"],input=out,stdout=subprocess.PIPE,text=True)
         bad=[(v,l) for v,l in zip(d.stdout.splitlines(), out.splitlines()) if not v.startswith("AGREE\tok") and v!="SKIP"]
         rules={}
